@@ -8,6 +8,10 @@ ROOT = os.path.dirname(os.path.dirname(os.path.abspath(__file__)))
 
 # id -> (engine, category, technique, text, note, design_ref)
 CHECKS = {
+    "C20": dict(engine="bubble", category="model_checking", design_ref="DESIGN.md section 7 C20",
+        technique="stateless exhaustive exploration of the real ReaderStream inside testing/synctest bubbles: all delivery histories x consumer programs x actor start orders, deadlock observed by the runtime",
+        text="All delivery histories (batches of 1-2 reassemblies with byte lengths {0,1,3} and Skip {0,2,-1}, up to 2 batches [thorough 3], then completion) x all consumer programs (up to 3 [4] reads of size 1/2/8, then drain-to-EOF / Close / double Close / read-after-end) x LossErrors x every order in which the explorer lets the two goroutines start their next call are executed on the implementation. Oracle on every execution: no panic, no deadlock/livelock, bytes read = prefix (after drain: all) of delivered bytes, one DataLost per gap at the right position, 0/EOF after the end.",
+        note="Trusted: testing/synctest quiescence detection and its deadlock report; sequences longer than the bounds are not explored; data-race freedom is checked by the separate free-running -race pass, not by this exploration."),
     "C01": dict(engine="enum", category="exploration", design_ref="DESIGN.md section 7 C01",
         technique="bounded-exhaustive input x option-set enumeration of NewPacket + the full read-only accessor suite on the real code, error-layer contract observed through a transparent wrapper PacketBuilder",
         text="Every (first layer, input, option set) case of a finite, completely enumerated space (all strings <=1 byte and a 22-value length-2 grid [thorough: all <=2], constant fills, deviation<=1 neighbourhoods of per-type fixture seeds, every seed x every first layer; 16 option sets) is decoded with recovery on and every read-only accessor is run; panics, crashes (stack overflow, OOM) and stalls are attributed to one case by the worker progress marker; the error-layer contract (failed <=> ErrorLayer!=nil, last layer, exactly one failure layer) is evaluated on every case from the decoders' actual return values.",
